@@ -245,7 +245,9 @@ func coldStartBurst() {
 	}
 	// (nothing of the library is called before the first concurrent phase: the callers meet every first-use path together)
 	wordSrc := []string{"${V%%X*}", "${V#a?}", "${W##*/}", "${V%b*}", "${V%%Y*}", "${W#/?}", "~root/x", "~nobody", "~daemon/y", "*/*", "d?/f1*", "$((n+1))", "d[0-4]/f2?",
-		"${@#p}", "${@%x}", "\"${@##p?}\"", "${*%%?x}", "$-", "\"$-\" $#"}
+		"$X", "$X $X", "${@#p}", "${@%x}", "\"${@##p?}\"", "${*%%?x}", "$-", "\"$-\" $#"}
+	// one alias table shared (read-only, as far as the callers are concerned) by all callers; values with two trailing blanks
+	sharedEnv := &interp.ExecEnv{Aliases: map[string]string{"ll": "ls -l  ", "l2": "ll \t ", "b": "c  "}}
 	const G = 8
 	one := func(g int) []string {
 		var out []string
@@ -268,6 +270,32 @@ func coldStartBurst() {
 			cmds, _, err := parser.ParseCommands(nil, "sim", &plainReader{strings.NewReader(text)})
 			out = append(out, fmt.Sprintf("%d %v", len(cmds), err))
 		}
+		// the same alias TEXT in every caller's own table; []byte sources; one table shared by all callers
+		own := &interp.ExecEnv{Aliases: map[string]string{"ll": "ls -l -a -b -c -e -f -i -k -n -p", "l2": "ll  ", "b": "c"}}
+		for i := 0; i < 200; i++ {
+			text := fmt.Sprintf("ll g%d i%d c f g h k m o q s\n", g, i)
+			var src interface{} = text
+			if i%2 == 1 {
+				src = []byte(text)
+			}
+			e := own
+			if i%4 >= 2 {
+				e = sharedEnv
+			}
+			cmds, _, err := parser.ParseCommands(e, "sim", src)
+			out = append(out, fmt.Sprintf("%s %v", props.Dump(cmds, 0), err))
+		}
+		// printing with different Configs at the same time
+		if cmds, _, err := parser.ParseCommands(nil, "sim", progs[g%3]); err == nil {
+			for i := 0; i < 40; i++ {
+				var b strings.Builder
+				cfg := printer.Config{Indent: []printer.Style{printer.Tab, printer.Space}[g%2], Width: 2 + g%3}
+				for _, c := range cmds {
+					cfg.Fprint(&b, c)
+				}
+				out = append(out, b.String())
+			}
+		}
 		env := interp.NewExecEnv("sim", "p1x", "p2x", "p3x", "p4x", "p5x", "p6x", "p7x", "p8x", "p9x", "p10x", "p11x", "p12x", "p13x")
 		env.Opts = []interp.Option{interp.XTrace | interp.Verbose, interp.NoUnset, interp.ErrExit | interp.NoGlob, interp.AllExport | interp.XTrace}[g%4]
 		for rep := 0; rep < 200; rep++ {
@@ -282,6 +310,7 @@ func coldStartBurst() {
 		}
 		env.Set("V", []string{"aXbYbZ", "abXcYd", "aaXX"}[g%3])
 		env.Set("W", "/a/b/c")
+		env.Set("X", "d0/f1* lit d?/f29 d[5-9]/f? z")
 		env.Set("n", fmt.Sprint(g))
 		for rep := 0; rep < 30; rep++ {
 			for i := range words {
